@@ -49,12 +49,20 @@ func main() {
 	} else {
 		scs = plan(run)
 	}
+	t0 := time.Now()
 	for _, sc := range scs {
+		t1 := time.Now()
 		enumerate(run, sc)
+		run.Notes["wall_s:"+sc.Name] = fmt.Sprintf("%.1f", time.Since(t1).Seconds())
 	}
+	run.Notes["wall_s:enumeration"] = fmt.Sprintf("%.1f", time.Since(t0).Seconds())
 	if run.Replay == "" {
+		t0 = time.Now()
 		faultRuns(run)
+		run.Notes["wall_s:fault-injection"] = fmt.Sprintf("%.1f", time.Since(t0).Seconds())
+		t0 = time.Now()
 		trieFaultRuns(run)
+		run.Notes["wall_s:trie-fault"] = fmt.Sprintf("%.1f", time.Since(t0).Seconds())
 	}
 }
 
@@ -63,7 +71,7 @@ func plan(run *hx.Run) []Scenario {
 	s := run.Seed * 1000
 	var scs []Scenario
 	add := func(sc Scenario) { sc.Name = fmt.Sprintf("%s%d", sc.Name, len(scs)); scs = append(scs, sc) }
-	nsmall := 5
+	nsmall := 7
 	if run.Thorough() {
 		nsmall = 60
 	}
@@ -73,8 +81,8 @@ func plan(run *hx.Run) []Scenario {
 		add(Scenario{Name: "p", TreeSeed: s + u, N: 14 + k%5, Branchy: 25 + 10*(k%3), Cache: "pruning", OrderSeed: s + u + 7, SetHeadTo: -1, StopMid: true, Contracts: k%2 == 0})
 	}
 	// directed: a shorter-but-heavier branch overtakes a longer one (multi-block re-pointing, canonical entries deleted)
-	add(Scenario{Name: "dirA", TreeSeed: s + 501, Directed: true, OldLen: 5, NewLen: 4, Cache: "archive", OrderSeed: s, SetHeadTo: -1, Contracts: true})
-	add(Scenario{Name: "dirP", TreeSeed: s + 502, Directed: true, OldLen: 4, NewLen: 3, Cache: "pruning", OrderSeed: s, SetHeadTo: -1, StopMid: true})
+	add(Scenario{Name: "dirA", TreeSeed: s + 501, Directed: true, OldLen: 8, NewLen: 7, Cache: "archive", OrderSeed: s, SetHeadTo: -1, Contracts: true})
+	add(Scenario{Name: "dirP", TreeSeed: s + 502, Directed: true, OldLen: 8, NewLen: 7, Cache: "pruning", OrderSeed: s, SetHeadTo: -1, StopMid: true})
 	// extended scope (informational): SetHead
 	add(Scenario{Name: "seth", TreeSeed: s + 601, N: 12, Branchy: 20, Cache: "archive", OrderSeed: s, SetHeadTo: 3})
 	// long pruning chain: periodic trie flushes above height 128, three tries at Stop
@@ -86,8 +94,8 @@ func plan(run *hx.Run) []Scenario {
 	if run.Thorough() {
 		for k := 0; k < 6; k++ {
 			u := uint64(k)
-			add(Scenario{Name: "dirA", TreeSeed: s + 510 + u, Directed: true, OldLen: 3 + k, NewLen: 2 + k/2, Cache: "archive", OrderSeed: s + u, SetHeadTo: -1, Contracts: k%2 == 0})
-			add(Scenario{Name: "dirP", TreeSeed: s + 520 + u, Directed: true, OldLen: 3 + k, NewLen: 2 + k/2, Cache: "pruning", OrderSeed: s + u, SetHeadTo: -1, StopMid: k%2 == 0})
+			add(Scenario{Name: "dirA", TreeSeed: s + 510 + u, Directed: true, OldLen: 8 + k, NewLen: 7 + (k+1)/2, Cache: "archive", OrderSeed: s + u, SetHeadTo: -1, Contracts: k%2 == 0})
+			add(Scenario{Name: "dirP", TreeSeed: s + 520 + u, Directed: true, OldLen: 8 + k, NewLen: 7 + (k+1)/2, Cache: "pruning", OrderSeed: s + u, SetHeadTo: -1, StopMid: k%2 == 0})
 		}
 		add(Scenario{Name: "longA", TreeSeed: s + 702, N: 140, Linear: true, Tail: 6, Cache: "archive", OrderSeed: s, SetHeadTo: -1})
 	}
@@ -223,7 +231,7 @@ func enumerate(run *hx.Run, sc Scenario) {
 				if win == "unclassified" {
 					sig = fmt.Sprintf("unclassified:%s:%s:prefix%d", v.Class, sc.Name, p)
 				}
-				run.Violate("crash-prefix", sig, map[string]interface{}{"scenario": sc, "prefix": p, "next_write": next},
+				report(run, "crash-prefix", sig, map[string]interface{}{"scenario": sc, "prefix": p, "next_write": next},
 					fmt.Sprintf("%s: crash before write #%d (%s): %s: %s", sc.Name, p, next, v.Class, v.Detail))
 				run.Count("prefix-bad:" + win + ":" + v.Class)
 			}
@@ -258,6 +266,19 @@ func enumerate(run *hx.Run, sc Scenario) {
 		}
 	} else {
 		run.Count("model-case-skipped-long-log")
+	}
+}
+
+// report forwards a direct judgement to the run; per signature only the first few carry full detail (the cap of the
+// framework's violation list is global), every occurrence is counted in the histogram.
+var perSig = map[string]int{}
+
+func report(run *hx.Run, kind, sig string, input interface{}, detail string) {
+	perSig[kind+"|"+sig]++
+	if perSig[kind+"|"+sig] <= 5 {
+		run.Violate(kind, sig, input, detail)
+	} else {
+		run.Count("violation(more):" + kind)
 	}
 }
 
@@ -363,9 +384,9 @@ func faultRuns(run *hx.Run) {
 			scs = append(scs, Scenario{Name: fmt.Sprintf("fa%d", k), TreeSeed: s + 10 + k, N: 12, Branchy: 35, Cache: "archive", OrderSeed: s + k, SetHeadTo: -1, Contracts: k%2 == 0})
 			scs = append(scs, Scenario{Name: fmt.Sprintf("fp%d", k), TreeSeed: s + 20 + k, N: 12, Branchy: 35, Cache: "pruning", OrderSeed: s + k, SetHeadTo: -1, StopMid: true})
 		}
-		scs = append(scs, Scenario{Name: "fdir", TreeSeed: s + 31, Directed: true, OldLen: 4, NewLen: 3, Cache: "archive", OrderSeed: s, SetHeadTo: -1})
+		scs = append(scs, Scenario{Name: "fdir", TreeSeed: s + 31, Directed: true, OldLen: 9, NewLen: 8, Cache: "archive", OrderSeed: s, SetHeadTo: -1})
 	} else {
-		scs = append(scs, Scenario{Name: "fdir", TreeSeed: s + 31, Directed: true, OldLen: 3, NewLen: 2, Cache: "archive", OrderSeed: s, SetHeadTo: -1})
+		scs = append(scs, Scenario{Name: "fdir", TreeSeed: s + 31, Directed: true, OldLen: 8, NewLen: 7, Cache: "archive", OrderSeed: s, SetHeadTo: -1})
 	}
 	self := selfPath()
 	for _, sc := range scs {
@@ -380,11 +401,20 @@ func faultRuns(run *hx.Run) {
 		n := len(ref.Log)
 		scJSON, _ := json.Marshal(sc)
 		refHead, refTies := crashFreeHead(b)
-		results := make([]ChildResult, n)
-		run.Current(fmt.Sprintf("fault %s (%d children)", sc.Name, n))
-		parallel(n, 8, func(i int) {
-			results[i] = runChild(self, dir, fmt.Sprintf("%s-%d", sc.Name, i), []string{"chain", string(scJSON), fmt.Sprint(i)}, 90*time.Second)
-			results[i].FailAt = i
+		// the directed history is long: in the quick tier only the writes of its last operations (the multi-block
+		// reorganisation and Stop) are made to fail
+		first := 0
+		if sc.Directed && !run.Thorough() {
+			for first < n && ref.Log[first].Op < len(b.Ops)-3 {
+				first++
+			}
+		}
+		results := make([]ChildResult, n-first)
+		run.Current(fmt.Sprintf("fault %s (%d children)", sc.Name, n-first))
+		parallel(n-first, 12, func(k int) {
+			i := first + k
+			results[k] = runChild(self, dir, fmt.Sprintf("%s-%d", sc.Name, i), []string{"chain", string(scJSON), fmt.Sprint(i)}, 90*time.Second)
+			results[k].FailAt = i
 		})
 		for i := range results {
 			res := &results[i]
@@ -411,8 +441,14 @@ func judgeFault(run *hx.Run, b *Built, base Image, res *ChildResult, refHead int
 		run.Count("fault-outcome:continued")
 	case res.Exit == exitCrit:
 		run.Count("fault-outcome:exit(log.Crit)")
+	case res.Exit == 2:
+		// a Go panic in the node after the failed write (e.g. Stop dereferencing a canonical entry whose block was never
+		// stored): the process dies, which is a crash like any other - judged by the reopened image below
+		run.Count("fault-outcome:panic-exit")
 	default:
 		run.Count(fmt.Sprintf("fault-outcome:exit%d", res.Exit))
+		run.Violate("harness-fault", fmt.Sprintf("child-exit%d", res.Exit), input, "fault child failed to run")
+		return
 	}
 	if res.FailedAt == nil {
 		run.Count("fault-not-reached")
@@ -450,7 +486,7 @@ func judgeFault(run *hx.Run, b *Built, base Image, res *ChildResult, refHead int
 	if win == "" {
 		sig = fmt.Sprintf("unclassified-fault:%s:%s:write%d", v.Class, sc.Name, res.FailAt)
 	}
-	run.Violate("crash-prefix", sig, input, fmt.Sprintf("%s: after failing write #%d (%s; child exit %d) the reopened view: %s: %s", sc.Name, res.FailAt, what, res.Exit, v.Class, v.Detail))
+	report(run, "crash-prefix", sig, input, fmt.Sprintf("%s: after failing write #%d (%s; child exit %d) the reopened view: %s: %s", sc.Name, res.FailAt, what, res.Exit, v.Class, v.Detail))
 	run.Count("fault-bad:" + sig)
 }
 
@@ -499,6 +535,32 @@ func trieFaultRuns(run *hx.Run) {
 	if ref.Exit != exitDone || nw < 3 {
 		run.Violate("harness-fault", "trie-ref", nil, fmt.Sprintf("reference trie commit: exit %d, %d writes", ref.Exit, nw))
 		return
+	}
+	// the reference run also yields a real multi-batch commit: the store must be closed after every one of its flushes
+	present := map[common.Hash]bool{}
+	for i, r := range ref.Records {
+		if r.Kind != 'b' {
+			continue
+		}
+		var added []W
+		for _, w := range r.Ws {
+			if ki := parseKey(w.Key); ki.Class == KNode {
+				present[ki.Hash] = true
+				added = append(added, w)
+			}
+		}
+		for _, w := range added {
+			for _, c := range nodeChildren(w.Val) {
+				if !present[c] {
+					run.Violate("trie-not-closed", "closed:trie-commit-multi-batch", map[string]interface{}{"record": i},
+						fmt.Sprintf("trie.Database.Commit (multi-batch): after flush #%d a node is stored without its child %x", i, c[:4]))
+					return
+				}
+			}
+		}
+		if len(added) > 0 {
+			run.Count("trie-commit-flushes-closed")
+		}
 	}
 	nw = (nw + 1) / 2 // the probe commits twice
 	run.Hist["trie-commit-writes"] = nw
